@@ -37,7 +37,7 @@ LEVEL = "exploration"
 RULE = ("(a) enumeration of all type bytes / 0xC0 sub-types and generated 0x1F sub-ids with generated payloads; (b,c) Hypothesis-"
         "generated valid console frames with generated mutations (re-checksummed or raw), truncations, splices and random "
         "bytes, judged against the independent receive model and readers.  Non-trivial: the input is not a sequence of "
-        "unmodified known frames; distinct by input bytes")
+        "unmodified known frames; distinct by input bytes. Also: an intact frame followed by a copy with one bit of its header or checksum flipped.")
 ASSUMPTIONS = ["payloads for which the documents give no reading (inconsistent inner lengths, invalid UTF-8) may be delivered or rejected",
                "an inbound stream that ends inside a frame is dropped by the simulated console before the probes are sent"]
 
@@ -245,7 +245,7 @@ def _mutated_stream(draw, gen: int):
     n = draw(st.integers(1, 3))
     frames = [draw(_console_frame(gen))[1] for _ in range(n)]
     originals = list(frames)
-    how = draw(st.sampled_from(["recomputed", "recomputed", "recomputed", "raw", "raw", "truncate", "splice", "random", "stride"]))
+    how = draw(st.sampled_from(["recomputed", "recomputed", "recomputed", "raw", "raw", "truncate", "splice", "random", "stride", "echo"]))
     i = draw(st.integers(0, n - 1))
     eof = False
     fr = refproto.parse_all(gen, frames[i])[0]
@@ -279,8 +279,14 @@ def _mutated_stream(draw, gen: int):
             elif len(b) > 1:
                 del b[pos]
         frames[i] = bytes(b)
-    elif how == "truncate":
-        frames = frames[:i] + [frames[i][: draw(st.integers(1, len(frames[i]) - 1))]]
+    elif how == "echo":
+        # the intact frame is followed by a copy of itself in which one bit outside the payload (addresses, packet id or
+        # the checksum itself) differs and the checksum was NOT recomputed: same type, same payload, means nothing
+        b = bytearray(frames[i])
+        h0 = 2 if gen == 4 else 4
+        pos = draw(st.sampled_from([h0, h0 + 1, h0 + 2, len(b) - 2, len(b) - 1]))
+        b[pos] ^= 1 << draw(st.integers(0, 7))
+        frames.insert(i + 1, bytes(b))
         eof = draw(st.booleans())
     elif how == "splice":
         a, b = frames[i], frames[draw(st.integers(0, n - 1))]
@@ -311,7 +317,7 @@ def shards(tier: str):
 def floors(tier: str):
     return {"unknown-type": 400, "unknown-ext-sub": 100, "unknown-c0-sub": 200, "model:error": 100, "model:clean": 100,
             "decoder-rejected": 20, "how:recomputed": 100, "how:truncate": 30,
-            "how:c0-normal-section": 40, "short-wrapper": 14, "zero-records": 6}
+            "how:c0-normal-section": 40, "how:echo": 100, "short-wrapper": 14, "zero-records": 6}
 
 
 def run_shard(spec, seed: int, tier: str):
